@@ -52,6 +52,11 @@ def evaluator_lock_rule(ctx, program, rid):
             if isinstance(p, ast.AsyncWith):
                 for item in p.items:
                     nm = norm(item.context_expr).replace("self.", "")
+                    if isinstance(item.context_expr, ast.Name):
+                        # a local alias: `lock = self._eval_lock` ... `async with lock:`
+                        for a in body_walk(fn):
+                            if isinstance(a, ast.Assign) and any(isinstance(t, ast.Name) and t.id == item.context_expr.id for t in a.targets):
+                                nm = norm(a.value).replace("self.", "")
                     if nm in locks:
                         held = nm
             p = getattr(p, "_parent", None)
